@@ -265,7 +265,9 @@ def get_composite_from_store(store: Store) -> Composite:
         topology=store.get_topology(),
         steps=store.get_steps(),
         flow=store.get_flow(),
-        state=store.get_value(),
+        # (the variables only: the process nodes are in processes/steps)
+        state=store.get_value(
+            condition=lambda child: not isinstance(child.value, Process)),
     )
 
 
